@@ -26,8 +26,12 @@ import (
 
 func init() {
 	const expl = "(FLOW): in package manager every store into tag.converters that can give a tag object attachments — an append to its own list, or the list of another tag object — is reached only over an edge on which canAttachConverter() of the receiving object holds, the source has no converters, or both objects have the same definition. The attach path and the loader of manager.New test the definition; a path that carries attachments over to a new definition without the test accepts what a restart then drops ('query is too complex'), and lets a converter's output re-trigger the tag that feeds it."
-	register("C11", "C11-m "+expl, func(p *Prog, r *Res) { ruleAttachOnlyIfAllowed(p, r, "C11-m attachments-only-on-attachable-definitions") })
-	register("C12", "C12-o "+expl, func(p *Prog, r *Res) { ruleAttachOnlyIfAllowed(p, r, "C12-o attachments-only-on-attachable-definitions") })
+	register("C11", "C11-m "+expl, func(p *Prog, r *Res) {
+		ruleAttachOnlyIfAllowed(p, r, "C11-m attachments-only-on-attachable-definitions")
+	})
+	register("C12", "C12-o "+expl, func(p *Prog, r *Res) {
+		ruleAttachOnlyIfAllowed(p, r, "C12-o attachments-only-on-attachable-definitions")
+	})
 }
 
 func ruleAttachOnlyIfAllowed(p *Prog, r *Res, rule string) {
